@@ -269,7 +269,52 @@ func (c *Checker) single(o Oblig) {
 			return
 		}
 	}
-	q := SMTQuery([]*Term{o.PC, Not(o.Cond)}, modelTerms(vars))
+	// quantified hypotheses are also given instantiated at the goal's skolem constants (sound: and(H) = and(H, H[sk]));
+	// first with the quantified originals left out (weaker hypotheses: only unsat is conclusive)
+	full := And(o.PC, Not(o.Cond))
+	if g := withInstHints(full, true); g != full {
+		qg := SMTQuery([]*Term{g}, nil)
+		if d := os.Getenv("SNESVC_DUMP"); d != "" && strings.Contains(o.Name, d) {
+			os.WriteFile("/tmp/dumpg_"+sanitizeFile(o.Name)+".smt2", []byte(qg.Text), 0o644)
+		}
+		if rg := Solve(qg, false); rg.Result == "unsat" {
+			oo := o
+			c.add(ObResult{Name: o.Name, Kind: o.Kind, Result: "discharged", Backend: rg.Backend + " (hypotheses instantiated at the goal's skolem constants)", Seconds: rg.Seconds, Size: len(qg.Text), ob: &oo})
+			return
+		}
+	}
+	// a goal merged from several paths (a conjunction of implications) is decided path by path
+	if o.Cond.Op == "and" && len(o.Cond.Args) >= 2 && len(o.Cond.Args) <= 16 && o.Cond.bound == false && hasQuant(o.PC, o.Cond) {
+		okAll := true
+		var secs float64
+		var mu sync.Mutex
+		var wg sync.WaitGroup
+		for _, ci := range o.Cond.Args {
+			ci := ci
+			wg.Add(1)
+			go func() {
+				defer wg.Done()
+				fi := And(o.PC, Not(ci))
+				r := Solve(SMTQuery([]*Term{withInstHints(fi, true)}, nil), false)
+				if r.Result != "unsat" {
+					r = Solve(SMTQuery([]*Term{withInstHints(fi, false)}, nil), false)
+				}
+				mu.Lock()
+				secs += r.Seconds
+				if r.Result != "unsat" {
+					okAll = false
+				}
+				mu.Unlock()
+			}()
+		}
+		wg.Wait()
+		if okAll {
+			oo := o
+			c.add(ObResult{Name: o.Name, Kind: o.Kind, Result: "discharged", Backend: fmt.Sprintf("portfolio (decided per path, %d paths)", len(o.Cond.Args)), Seconds: secs, ob: &oo})
+			return
+		}
+	}
+	q := SMTQuery([]*Term{withInstHints(full, false)}, modelTerms(vars))
 	if d := os.Getenv("SNESVC_DUMP"); d != "" && strings.Contains(o.Name, d) {
 		os.WriteFile("/tmp/dump_"+sanitizeFile(o.Name)+".smt2", []byte(q.Text), 0o644)
 	}
@@ -294,6 +339,32 @@ func (c *Checker) single(o Oblig) {
 		res.Output = "no model: " + strings.Join(r.Tried, " ") + "\n" + r.Output
 	}
 	c.add(res)
+}
+
+func hasQuant(ts ...*Term) bool {
+	seen := map[int64]bool{}
+	var walk func(t *Term) bool
+	walk = func(t *Term) bool {
+		if seen[t.id] {
+			return false
+		}
+		seen[t.id] = true
+		if t.Op == "forall" {
+			return true
+		}
+		for _, a := range t.Args {
+			if walk(a) {
+				return true
+			}
+		}
+		return false
+	}
+	for _, t := range ts {
+		if walk(t) {
+			return true
+		}
+	}
+	return false
 }
 
 // ---- known findings ----
@@ -341,6 +412,9 @@ func (c *Checker) Finish(w *World, replayer func(r *ObResult) (bool, interface{}
 	for i := range c.Results {
 		r := &c.Results[i]
 		nOb++
+		if os.Getenv("SNESVC_LIST") != "" {
+			fmt.Fprintf(os.Stderr, "OB %-70s %-10s %6.2fs %s\n", r.Name, r.Result, r.Seconds, r.Backend)
+		}
 		switch r.Result {
 		case "trivial":
 			nTriv++
